@@ -217,8 +217,7 @@ def _run_cv_discrete(inst, res):
         res['notes'].append(ex.status)
         return
     h = _H(res, [])
-    res['obligations'] += 1
-    res['discharged'] += int(ex.exhaustive())
+    require_exhaustive(res, ex)
     for p in ex.paths:
         if p.kind == 'exc':
             _viol(res, 'correct_value', dict(kind='raises', n=n, dom=inst['dom']), dict(n=n), dict(value=None), repr(p.exc), 'value')
@@ -272,8 +271,7 @@ def _run_cv_cont(inst, res):
         res['notes'].append(ex.status)
         return
     h = _H(res, pre)
-    res['obligations'] += 1
-    res['discharged'] += int(ex.exhaustive())
+    require_exhaustive(res, ex)
     for p in ex.paths:
         if p.kind == 'exc':
             m = h.prove(p, z3.BoolVal(False), 'no exception')
@@ -404,8 +402,7 @@ def _set_harness(res, kinds, link, src, vdom, extra_claim=None, label='', native
         res['notes'].append(ex.status)
         return ex, terms, pre, v
     h = _H(res, pre)
-    res['obligations'] += 1
-    res['discharged'] += int(ex.exhaustive())
+    require_exhaustive(res, ex)
     t_src = terms[src]
     for p in ex.paths:
         if p.kind == 'exc':
